@@ -190,13 +190,17 @@ func runCheck(root, prop, tier string, makeBaseline, verbose, keep bool, onlyFn 
 		reports = append(reports, rep)
 		obls = append(obls, ctx.obls...)
 	}
-	timeout := 10
+	// per-obligation limit of the individual race (most obligations never get
+	// there: the per-function incremental session settles them). Generous on
+	// purpose: the slowest claimed obligation needs about 10 s on an idle
+	// machine and the checks may run on a loaded one.
+	timeout := 30
 	if tier == "thorough" {
-		timeout = 60
+		timeout = 90
 	}
 	work := filepath.Join(root, ".work", prop)
 	os.RemoveAll(work)
-	eng.discharge(obls, work, timeout, tier == "thorough", 14)
+	eng.discharge(obls, work, timeout, tier == "thorough", 8)
 	// the search for failing inputs (models, guesses, bounded stand-in runs)
 	// has a wall-clock budget; what is not found in time is reported without input
 	searchDeadline = time.Now().Add(120 * time.Second)
